@@ -31,6 +31,9 @@ pub struct SpecFlags {
     /// for constructive left-recursion oracle: see leftrec plan
     #[serde(default)]
     pub constructive: Option<LeftrecShape>,
+    /// the module is produced by `peginate!("...")` instead of the library route (C16)
+    #[serde(default)]
+    pub via_macro: bool,
 }
 
 #[derive(Serialize, Deserialize, Clone, Debug, PartialEq)]
@@ -495,6 +498,29 @@ pub fn make(plan: &str, seed: u64, count: usize, tier: &str, wave: u64) -> (Vec<
                     k += 1;
                 }
                 wv += 1;
+            }
+        }
+        "macro" => {
+            let want = (count / 2).max(1);
+            let mut k = 0;
+            for pname in ["fields", "mixed", "memo"] {
+                let prof = Profile::by_name(pname).unwrap();
+                for (g, _) in profile_grammars(&prof, seed, want / 3 + 1, wave, &mut stats) {
+                    if k >= want {
+                        break;
+                    }
+                    // the macro always uses the default settings: no user context
+                    let mut a = spec(format!("g{:04}a", k), plan, g.clone());
+                    a.group = Some(format!("q{:04}", k));
+                    a.role = "library".into();
+                    let mut b = spec(format!("g{:04}b", k), plan, g);
+                    b.group = a.group.clone();
+                    b.role = "macro".into();
+                    b.flags.via_macro = true;
+                    specs.push(a);
+                    specs.push(b);
+                    k += 1;
+                }
             }
         }
         "hooks" => {
